@@ -23,6 +23,12 @@ def _simple_batch_trace(simple_batch, u, bs, method, seed, tag, again=True):
     shape = u.shape
     events = [{"ev": "Clip"}]
     inp = u.copy()
+    if tag == "view":
+        # the same values as a strided view of a larger array (neither C- nor F-contiguous for >= 2 dimensions)
+        big = np.full(tuple(2 * d + 1 for d in shape), 7.0)
+        sl = tuple(slice(None, 2 * d, 2) for d in shape)
+        big[sl] = u
+        inp = big[sl]
     try:
         with warnings.catch_warnings():
             warnings.simplefilter("ignore")
@@ -99,7 +105,7 @@ def _sb_case(arg):
             outcomes = {}
             first = set()
             for s in range(seeds_here):
-                tag = "list" if s % 2 else "array"
+                tag = ("array", "list", "view")[s % 3]
                 events, arrays, picked = _simple_batch_trace(simple_batch, u, bs, method,
                                                              seed0 + s, tag, again=(s < 2))
                 n_eval += 1
